@@ -165,10 +165,11 @@ type w7xConnState struct {
 	enc            *w7xDictConn
 
 	// faults
-	faulted   bool // a server write failed or stalled past its deadline
-	faultSeq  int64
-	stalling  bool
-	connected bool // at the C08 checkpoint
+	faulted            bool // a server write failed or stalled past its deadline
+	faultSeq           int64
+	stalling           bool
+	closedWhileStalled bool // the server closed the socket while a write was blocked in it
+	connected          bool // at the C08 checkpoint
 }
 
 type w7xWorld struct {
@@ -474,6 +475,9 @@ func (n *w7xNetConn) Close() error {
 		return &w7xNetErr{msg: "sim: use of closed connection"}
 	}
 	n.closed = true
+	if c.stalling {
+		c.closedWhileStalled = true
+	}
 	n.closeSeq = c.w.next()
 	n.rerr = &w7xNetErr{msg: "sim: use of closed connection"}
 	n.signal()
